@@ -4,9 +4,11 @@ package c14
 import (
 	"fmt"
 	"math/rand/v2"
+	"net/netip"
 	"slices"
 	"strings"
 	"sync"
+	"sync/atomic"
 	"time"
 
 	"github.com/mycoria/mycoria/frame"
@@ -26,6 +28,7 @@ func init() {
 		Rule: "two real routers (directly linked and via one relay; both address orderings), key setup started through the real HelloPing.Send; the harness owns the network and enumerates schedules by re-execution: " +
 			"initiator set {A},{B},{A,B}; every in-flight hello message may be delivered, dropped or delivered twice; a side that is not set up may retry after logical expiry (hook VerifExpireHello) at every position; " +
 			"exhaustive DFS without retries, budgeted DFS + seeded sampling with retries; at quiescence: not (both set up and unable to decrypt each other), and one clean retry completes the setup; " +
+			"the second initiator's Send overlapped with a frame worker serving the first one's request (at the link-send suspension point, and with two goroutines through the real tun trigger); " +
 			"non-trivial = both routers initiate, or a message is lost or duplicated; distinct by schedule string",
 		Run:              run,
 		CrashIsViolation: true,
@@ -53,6 +56,8 @@ type world struct {
 	// errLeft: how many authentic "no encryption keys" error pings each side may still send to the other (what a
 	// router does when traffic arrives that it has no keys for); they travel like every other message
 	errLeft [2]int
+	// windowHandledInside: the peer's request was handled completely while the local request was inside Send
+	windowHandledInside bool
 }
 
 func (w *world) node(side int) *vmesh.Node {
@@ -178,6 +183,47 @@ func (w *world) apply(act action) error {
 	return nil
 }
 
+// initiateInWindow starts a setup at side through the real HelloPing.Send while the peer's own request is waiting
+// at this router, and lets a frame worker of the same router handle that request at the moment the local request is
+// handed to the link - i.e. inside Send, an existing suspension point (the link's queue). In the real router the
+// sender (tun worker) and the frame workers are different goroutines; here the delivery runs on a goroutine of its
+// own and the sender waits (bounded) for it: a tree whose handler has to wait for the sender simply runs it afterwards.
+func (w *world) initiateInWindow(side int) error {
+	n := w.node(side)
+	var fired atomic.Bool
+	var wg sync.WaitGroup
+	w.ms.OnLinkSend = func(l *vmesh.VLink, data []byte) {
+		if l.FromIdx() != n.Idx || !fired.CompareAndSwap(false, true) {
+			return
+		}
+		var p *vmesh.Packet
+		for i, q := range w.ms.InFlight {
+			if q.To == n.Idx {
+				p = w.ms.Take(i)
+				break
+			}
+		}
+		if p == nil {
+			return
+		}
+		w.trace = append(w.trace, "deliver "+w.name(p)+" to a frame worker of "+sideName(side)+" while its own request is being sent")
+		wg.Add(1)
+		done := core.OnHelper(func() {
+			defer wg.Done()
+			w.ms.Deliver(p)
+		})
+		select {
+		case <-done:
+			w.windowHandledInside = true
+		case <-time.After(10 * time.Millisecond):
+		}
+	}
+	err := w.initiate(side)
+	wg.Wait()
+	w.ms.OnLinkSend = nil
+	return err
+}
+
 // talk seals traffic at from and unseals it at to.
 func (w *world) talk(from, to int) error {
 	F, T := w.node(from), w.node(to)
@@ -220,6 +266,11 @@ type setup struct {
 	// chooses (signed frames are filtered by per-sender timestamps, so what a router signed before its request
 	// and what it signed after it are different schedules)
 	lateInit bool
+	// window: the second initiator's request is sent while the first one's request is handled by a frame worker of
+	// the same router (see initiateInWindow)
+	window bool
+	// tun: the routers have a (fake) local interface, so that the real trigger in router/tun.go runs
+	tun bool
 }
 
 func buildWorld(r *rand.Rand, s setup, retries int) (*world, error) {
@@ -240,7 +291,7 @@ func buildWorld(r *rand.Rand, s setup, retries int) (*world, error) {
 	if s.relay {
 		use[1] = ids[2]
 	}
-	ms, err := vmesh.Build(r, t, use, vmesh.BuildOpts{Labels: vmesh.LabelsSmall, Introduce: true})
+	ms, err := vmesh.Build(r, t, use, vmesh.BuildOpts{Labels: vmesh.LabelsSmall, Introduce: true, FakeTun: s.tun})
 	if err != nil {
 		return nil, err
 	}
@@ -340,9 +391,39 @@ func runSchedule(res *core.Result, r *rand.Rand, s setup, initSet int, retries i
 	if s.errs > 0 {
 		desc += " with-no-keys-error-pings"
 	}
+	if s.window {
+		desc += " first-request-handled-while-second-is-being-sent"
+	}
 	for k, side := range initiatorSets[initSet] {
 		if s.lateInit && k > 0 {
 			w.lateInits = append(w.lateInits, side)
+			continue
+		}
+		if s.window && k > 0 {
+			// bring the first request to the last hop before this router
+			for guard := 0; guard < 10; guard++ {
+				moved := false
+				for i, q := range w.ms.InFlight {
+					if q.To != w.node(side).Idx {
+						w.ms.Deliver(w.ms.Take(i))
+						moved = true
+						break
+					}
+				}
+				if !moved {
+					break
+				}
+			}
+			w.trace = append(w.trace, "init "+sideName(side))
+			if err := w.initiateInWindow(side); err != nil {
+				res.Inconcl("initiate in window: %v", err)
+				return nil, false
+			}
+			if w.windowHandledInside {
+				res.Count("window_request_handled_inside_send", 1)
+			} else {
+				res.Count("window_request_handled_after_send", 1)
+			}
 			continue
 		}
 		if err := w.initiate(side); err != nil {
@@ -470,6 +551,96 @@ func concurrentInitiation(res *core.Result, r *rand.Rand, s setup, workers int) 
 	res.Case(fmt.Sprintf("concurrent-initiation|%v|%v|%d|%d|%s", s.relay, s.swapped, workers, sent, order), true)
 }
 
+// tunRace: the real trigger. A local packet for the peer reaches the tun handler of a router without keys
+// (router/tun.go: session not set up -> HelloPing.Send) while the peer's own request is handled by a frame worker of
+// the same router - two real goroutines, the second starting after a seeded delay of 0..600 microseconds, so that over
+// the runs the request is handled before the trigger looks, between its look and its Send, inside Send, and after it.
+// Afterwards everything addressed to the peer is delivered and the peer's hello response is lost (the continuation in
+// which a superfluous second setup does harm); the usual verdict applies.
+func tunRace(res *core.Result, r *rand.Rand, s setup) {
+	w, err := buildWorld(r, s, 0)
+	if err != nil {
+		res.Inconcl("world: %v", err)
+		return
+	}
+	t0 := time.Now()
+	A, B := w.node(0), w.node(1)
+	if err := w.initiate(1); err != nil {
+		res.Inconcl("tun race: peer cannot initiate: %v", err)
+		return
+	}
+	if w.ms.Pending() != 1 {
+		res.Inconcl("tun race: %d frames in flight after one initiation", w.ms.Pending())
+		return
+	}
+	reqB := w.ms.Take(0)
+	pkt := localPacket(A.ID.IP, B.ID.IP, 17, uint16(20000+r.IntN(20000)), uint16(1+r.IntN(60000)))
+	ps := A.Inst.BuilderV.GetPooledSlice(len(pkt))
+	copy(ps, pkt)
+	delay := time.Duration(r.IntN(600)) * time.Microsecond
+	var wg sync.WaitGroup
+	var perr error
+	start := make(chan struct{})
+	wg.Add(2)
+	core.OnHelper(func() {
+		defer wg.Done()
+		<-start
+		perr = A.Inst.RouterV.VerifHandleTunPacket(ps[:len(pkt)])
+	})
+	core.OnHelper(func() {
+		defer wg.Done()
+		<-start
+		for t := time.Now(); time.Since(t) < delay; {
+		}
+		w.ms.Deliver(reqB)
+	})
+	close(start)
+	wg.Wait()
+	desc := fmt.Sprintf("swapped=%v: local packet at A (no keys) while B's request is handled by a frame worker of A (started %v later)", s.swapped, delay)
+	if perr != nil || len(w.ms.Panics) > 0 {
+		res.Violate("handler-panic", fmt.Sprintf("%s: %v %v", desc, perr, w.ms.Panics), map[string]any{"setup": desc})
+		return
+	}
+	requestsFromA := 0
+	for guard := 0; guard < 50 && w.ms.Pending() > 0; guard++ {
+		p := w.ms.Take(0)
+		if p.To == B.Idx {
+			if len(p.Data) > 4 && frame.MessageType(p.Data[4]) == frame.RouterPing {
+				requestsFromA++
+			}
+			w.ms.Deliver(p)
+		} // else: lost
+	}
+	if core.StalledSince(t0) {
+		res.Count("schedules_discarded_after_process_stall", 1)
+		return
+	}
+	if sig, msg := w.verdict(); sig != "" {
+		res.Violate(sig+":local-packet-while-peer-request-is-handled", fmt.Sprintf("%s; then A's frames were delivered and B's answers lost: %s", desc, msg), map[string]any{"setup": desc, "case_id": "tun-race"})
+		return
+	}
+	res.Count("tun_races", 1)
+	if requestsFromA >= 2 {
+		res.Count("tun_races_in_which_A_also_sent_a_request", 1)
+	}
+	res.Case(fmt.Sprintf("tun-race|%v|%d|%d", s.swapped, delay/(50*time.Microsecond), requestsFromA), true)
+}
+
+func localPacket(src, dst netip.Addr, proto uint8, sport, dport uint16) []byte {
+	p := make([]byte, 60)
+	p[0] = 6 << 4
+	p[5] = 20
+	p[6] = proto
+	p[7] = 64
+	a := src.As16()
+	copy(p[8:24], a[:])
+	a = dst.As16()
+	copy(p[24:40], a[:])
+	p[40], p[41] = byte(sport>>8), byte(sport)
+	p[42], p[43] = byte(dport>>8), byte(dport)
+	return p
+}
+
 func dfs(res *core.Result, r *rand.Rand, s setup, initSet, retries, budget int) {
 	var choices []int
 	count := 0
@@ -562,6 +733,14 @@ func run(c *core.Ctx) {
 			}
 		}
 	}
+	// the second router starts its setup (it has no keys yet) at the very moment the first one's request is handled
+	// by one of its frame workers: every continuation (deliver / drop / duplicate) of what is in flight afterwards
+	for _, relay := range []bool{false, true} {
+		for _, swapped := range []bool{false, true} {
+			s := setup{relay: relay, swapped: swapped, ids: ids, window: true}
+			jobs = append(jobs, job{s, 2, 0, c.Q(500, 20000), 0}, job{s, 3, 0, c.Q(500, 20000), 0})
+		}
+	}
 	parallel(len(jobs), func(w int) {
 		j := jobs[w]
 		r := core.RNG(fmt.Sprintf("c14/job/%d", w))
@@ -578,10 +757,18 @@ func run(c *core.Ctx) {
 			concurrentInitiation(res, r, setup{relay: i%4 == 3, swapped: i%2 == 1, ids: ids}, 2+i%3)
 		}
 	})
+	parallel(16, func(w int) {
+		r := core.RNG(fmt.Sprintf("c14/tunrace/%d", w))
+		for i := 0; i < c.Q(12, 200); i++ {
+			tunRace(res, r, setup{swapped: i%2 == 1, ids: ids, tun: true})
+		}
+	})
 	res.Sample("relay=false swapped=false initiators=[A B]: init A; init B; deliver m1(from A); deliver m2(from B); deliver m3(from B); deliver m4(from A)")
 	res.Sample("relay=true swapped=true initiators=[A]: init A; drop m1(from A); retry A; deliver m2(from A); deliver-copy m3(from B); deliver m3(from B)")
 	res.Assume("the passage of the 30 s / 5 s hello timers is simulated by the hook VerifExpireHello; a retry is only taken by a side that is not set up (the real trigger is a local packet to a peer without keys)")
 	res.Assume("exact duplicates of signed frames are filtered by the per-peer timestamp filter before any handler runs; duplicates are still delivered to exercise that")
 	res.Require(res.Counter("schedules_both_initiate") >= 200, "fewer than 200 schedules with both routers initiating")
+	res.Require(res.Counter("window_request_handled_inside_send")+res.Counter("window_request_handled_after_send") >= 300, "fewer than 300 schedules in which a request was handled while the own one was being sent")
+	res.Require(res.Counter("tun_races") >= 100, "fewer than 100 runs of the real trigger racing a frame worker")
 	res.Require(res.Counter("dfs_spaces_exhausted") >= 8, "fewer than 8 schedule spaces (no retries) exhausted")
 }
